@@ -1,3 +1,4 @@
 import KawinV.DriverMain
 import KawinV.Drv.C03
-def main : IO Unit := KawinV.runDriver [KawinV.Drv.C03.handle]
+import KawinV.Drv.KWNFull
+def main : IO Unit := KawinV.runDriver [KawinV.Drv.C03.handle, KawinV.Drv.KWNFull.handle]
